@@ -25,7 +25,7 @@ type c36Tok struct{ kind, text string }
 var c36UnsafeBudget map[string]int
 
 func c36ResetBudget() {
-	c36UnsafeBudget = map[string]int{"comment": 70, "tail-comment": 10, "space": 12, "literal": 20, "list-mutant": 8, "hex-string": 6, "vt-ff": 6}
+	c36UnsafeBudget = map[string]int{"comment": 30, "space": 12, "list-mutant": 8}
 }
 
 func c36Unsafe(cat string) bool {
@@ -270,6 +270,12 @@ func c36Statement(g *core.Gen) (toks []c36Tok, shape string) {
 			}
 			toks = append(toks, c36op(")"))
 		}
+		if g.Intn(3) == 0 {
+			// something after the (last) row: the blank that follows a value list
+			toks = append(toks, c36kw("on"), c36kw("duplicate"), c36kw("key"), c36kw("update"))
+			toks = append(toks, c36id(core.Pick(g, []string{"a", "b", "name"})), c36op("="), c36lit(c36Literal(g)))
+			shape = "insert-on-dup"
+		}
 	case 2:
 		shape = "update"
 		toks = append(toks, c36kw("update"))
@@ -336,7 +342,7 @@ func c36GapLevel(prev, next c36Tok) int {
 	return 1
 }
 
-var c36WS = []string{" ", " ", " ", "  ", "\t", "\n", "\r\n", " \t ", "\n\n  ", "   "}
+var c36WS = []string{" ", " ", " ", "  ", "\t", "\n", "\r\n", " \t ", "\n\n  ", "   ", "\v", " \f"}
 
 func c36Space(g *core.Gen) string { return core.Pick(g, c36WS) }
 
@@ -404,20 +410,19 @@ func c36Render(g *core.Gen, toks []c36Tok, st c36Style) (texts []string, gaps []
 			gap = c36Space(g)
 		}
 		if st.comments > 0 && g.Intn(100) < st.comments {
-			style := core.Pick(g, []string{"mlc", "mlc", "mlc-slash", "dash", "hash"})
-			inside, beforeList, afterList := c36GapCtx(toks, i)
-			cm := c36Comment(g, style)
-			if beforeList || (afterList && style == "dash") || (inside && strings.ContainsAny(cm, "'\"()")) {
-				// positions where the fingerprint is known not to ignore a comment
-				// (open classes of known/C36.json); they are exercised one at a time
-				// by the one-comment variants
-				gaps[i] = gap
-				continue
+			// one or two comments of any style, glued to the tokens around them or
+			// not, wherever the canonical rendering has a blank: between words,
+			// after a literal, before, inside and after IN/VALUES lists
+			gap = ""
+			for k := 1 + g.Intn(4)/3; k > 0; k-- {
+				style := core.Pick(g, []string{"mlc", "mlc", "mlc-slash", "dash", "hash"})
+				left := core.Pick(g, []string{"", "", " ", c36Space(g)})
+				if t.text == "*" && gap == "" {
+					left = " " // `*` directly followed by a comment would read `*/`
+				}
+				gap += left + c36Comment(g, style)
 			}
-			gap += cm + c36Space(g)
-			if !st.respace {
-				gap = strings.TrimRight(gap, " ") + " "
-			}
+			gap += core.Pick(g, []string{"", "", " ", c36Space(g)})
 		}
 		gaps[i] = gap
 	}
@@ -556,6 +561,16 @@ func c36EmitVariants(g *core.Gen) {
 	if c36TightOps {
 		shape += "-tight"
 	}
+	if g.Intn(8) == 0 {
+		// a column named like the keyword of a value list
+		for i, t := range toks {
+			if t.kind == "id" && (t.text == "a" || t.text == "name") && !(i+1 < len(toks) && toks[i+1].text == "(") {
+				toks[i].text = core.Pick(g, []string{"value", "value", "`values`"})
+				shape += "-value-column"
+				break
+			}
+		}
+	}
 	canon := c36Style{}
 	styleA := canon
 	if g.Intn(2) == 0 {
@@ -582,11 +597,11 @@ func c36EmitVariants(g *core.Gen) {
 		xb, gb := c36Render(g, toks, c36Style{respace: true})
 		g.Emit(c36Case(toks, toks, ta, ga, xb, gb), "variant", "variant-space", "shape-"+shape)
 	}
-	// 2. comments separated by white space on both sides, in every gap that has a space
+	// 2. comments, spaced or glued, in every gap that has a space
 	{
 		tb := c36Relit(g, toks)
 		xb, gb := c36Render(g, tb, c36Style{recase: true, respace: true, comments: 30})
-		g.Emit(c36Case(toks, tb, ta, ga, xb, gb), "variant", "variant-comments-spaced", "shape-"+shape)
+		g.Emit(c36Case(toks, tb, ta, ga, xb, gb), "variant", "variant-comments", "shape-"+shape)
 	}
 	// 3. one comment at one token boundary
 	for k := 0; k < 3; k++ {
@@ -602,37 +617,28 @@ func c36EmitVariants(g *core.Gen) {
 		switch {
 		case i+1 == len(toks):
 			// after the last token: spaced or glued, with or without the final newline
-			left := " "
-			if c36Unsafe("tail-comment") {
-				left = core.Pick(g, []string{"", " "})
-			}
-			gb[i] = left + cm
+			gb[i] = core.Pick(g, []string{"", " "}) + cm
 			if g.Intn(2) == 0 {
 				gb[i] = strings.TrimSuffix(gb[i], "\n")
 			}
+			tag = "variant-tail-comment"
 		case gb[i] == "":
-			// a comment where the canonical rendering has no blank (class optional-space)
+			// a comment where the canonical rendering has no blank (open class optional-space)
 			if !c36Unsafe("comment") {
 				continue
 			}
 			gb[i] = cm
 			tag = "variant-one-comment-known-unsafe"
 		default:
-			safe := !beforeList && !(afterList && style == "dash") && !(inside && strings.ContainsAny(cm, "'\"()"))
-			if safe && g.Intn(4) > 0 {
-				// separated from the previous token by a blank; glued or not to the next one
-				gb[i] = " " + cm + core.Pick(g, []string{"", " "})
-			} else {
-				// every other way of gluing it, and the positions around IN/VALUES lists
-				if !c36Unsafe("comment") {
-					continue
-				}
-				left := core.Pick(g, []string{"", " "})
-				if beforeList {
-					left = " " // one lexical feature per case: `…-before-list`, not also `…-glued-after-word`
-				}
-				gb[i] = left + cm + core.Pick(g, []string{"", " "})
-				tag = "variant-one-comment-known-unsafe"
+			// spaced or glued on either side
+			gb[i] = core.Pick(g, []string{"", " "}) + cm + core.Pick(g, []string{"", " "})
+			switch {
+			case beforeList:
+				tag = "variant-one-comment-before-list"
+			case afterList:
+				tag = "variant-one-comment-after-list"
+			case inside:
+				tag = "variant-one-comment-inside-list"
 			}
 		}
 		g.Emit(c36Case(toks, toks, ta, ga, xb, gb), "variant", tag, "comment-"+style, "shape-"+shape)
@@ -678,15 +684,17 @@ func c36EmitVariants(g *core.Gen) {
 			i := core.Pick(g, lits)
 			tb := c36CloneToks(toks)
 			tag := "variant-literal-spelling"
-			if g.Intn(3) == 0 && c36Unsafe("literal") {
-				tb[i].text = core.Pick(g, []string{"'it''s'", "\"say \"\"hi\"\"\"", "''''", "1e+5", "2E+10", ".5"})
-				tag = "variant-literal-spelling-known-unsafe"
-			} else {
+			switch g.Intn(3) {
+			case 0:
+				// a doubled quote, an explicit exponent sign, a leading dot
+				tb[i].text = core.Pick(g, []string{"'it''s'", "\"say \"\"hi\"\"\"", "''''", "'''a'", "'a'''", "1e+5", "2E+10", "1.5e+3", ".5", ".25"})
+				tag = "variant-literal-spelling-2"
+			case 1:
+				// hex/bit strings (glued to the operator when the layout is tight)
+				tb[i].text = core.Pick(g, []string{"x'0F'", "b'0101'", "x''"})
+				tag = "variant-literal-hex-string"
+			default:
 				tb[i].text = core.Pick(g, []string{"-5", "+7", "''", "\"\"", "-0.5", "'\\''", "\"\\\\\""})
-				if g.Intn(3) == 0 && (!c36TightOps || c36Unsafe("hex-string")) {
-					// glued to an operator a hex/bit string is a known finding (lit-prefixed-string-glued)
-					tb[i].text = core.Pick(g, []string{"x'0F'", "b'0101'"})
-				}
 			}
 			xb, gb := c36Render(g, tb, canon)
 			g.Emit(c36Case(toks, tb, ta, ga, xb, gb), "variant", tag, "shape-"+shape)
@@ -764,12 +772,12 @@ func c36EmitVariants(g *core.Gen) {
 			if t.kind == "kw" && t.text == "where" {
 				hasWhere = true
 			}
-			if t.kind == "kw" && (t.text == "group" || t.text == "order" || t.text == "limit") && (hasWhere || shape != "insert") {
+			if t.kind == "kw" && (t.text == "group" || t.text == "order" || t.text == "limit") && (hasWhere || !strings.HasPrefix(shape, "insert")) {
 				end = i
 				break
 			}
 		}
-		if shape != "insert" {
+		if !strings.HasPrefix(shape, "insert") {
 			var extra []c36Tok
 			if hasWhere {
 				extra = append(extra, c36kw(core.Pick(g, []string{"and", "or"})))
@@ -861,8 +869,8 @@ func c36EmitBlacklists(g *core.Gen) {
 		q = core.Pick(g, stmts)
 		if g.Intn(3) == 0 {
 			q = core.Pick(g, []string{"", " ", "\n" + q + " ", "\t" + q, q + "\r\n"})
-			if c36Unsafe("vt-ff") {
-				// known finding vertical-tab-form-feed-space
+			if g.Intn(3) == 0 {
+				// vertical tab and form feed are white space too
 				q = core.Pick(g, []string{"\v" + strings.TrimSpace(q), strings.TrimSpace(q) + "\f"})
 			}
 		}
@@ -880,6 +888,10 @@ func c36Join(texts, gaps []string) string {
 }
 
 // ---- statements of the token grammar of the theorems (requests `th`) ----
+//
+//	(th LEAD ((ITEM SEP) …) ITEM TAIL)
+//	LEAD, SEP, TAIL, GAP = (PIECE …)           PIECE = (ws C) | (mlc BODY) | (dash C BODY) | (hash BODY)
+//	ITEM = (c SEG …) | (vl KW GAP CONTENT ROW …)   SEG = (w T) | (n T) | (s T) | (p C T)   ROW = (GAP GAP CONTENT)
 
 func c36PieceText(p core.Sexp) string {
 	switch p.Head() {
@@ -895,11 +907,33 @@ func c36PieceText(p core.Sexp) string {
 	panic("c36: bad separator piece " + p.String())
 }
 
-func c36SepText(s core.Sexp) string {
+func c36GapText(s core.Sexp) string {
 	var b strings.Builder
-	b.WriteString(s.Nth(0).Str())
-	for _, p := range s.List[1:] {
+	for _, p := range s.List {
 		b.WriteString(c36PieceText(p))
+	}
+	return b.String()
+}
+
+func c36ItemText(it core.Sexp) string {
+	var b strings.Builder
+	switch it.Head() {
+	case "c":
+		for _, sg := range it.List[1:] {
+			b.WriteString(sg.Nth(1).Str())
+			if sg.Head() == "p" {
+				b.WriteString(sg.Nth(2).Str())
+			}
+		}
+	case "vl":
+		b.WriteString(it.Nth(1).Str())
+		b.WriteString(c36GapText(it.Nth(2)))
+		b.WriteString("(" + it.Nth(3).Str() + ")")
+		for _, r := range it.List[4:] {
+			b.WriteString(c36GapText(r.Nth(0)) + "," + c36GapText(r.Nth(1)) + "(" + r.Nth(2).Str() + ")")
+		}
+	default:
+		panic("c36: bad item " + it.String())
 	}
 	return b.String()
 }
@@ -907,231 +941,287 @@ func c36SepText(s core.Sexp) string {
 // c36ThText is the text of a `(th LEAD ((ITEM SEP) …) ITEM TAIL)` request.
 func c36ThText(in core.Sexp) string {
 	var b strings.Builder
-	for _, p := range in.Nth(1).List {
-		b.WriteString(c36PieceText(p))
-	}
-	itemText := func(it core.Sexp) string {
-		t := it.Nth(1).Str()
-		switch it.Head() {
-		case "cn", "cs":
-			t += it.Nth(2).Str()
-		case "vl":
-			t += it.Nth(2).Str() + "(" + it.Nth(3).Str() + ")"
-		}
-		return t
-	}
+	b.WriteString(c36GapText(in.Nth(1)))
 	for _, is := range in.Nth(2).List {
-		b.WriteString(itemText(is.Nth(0)))
-		b.WriteString(c36SepText(is.Nth(1)))
+		b.WriteString(c36ItemText(is.Nth(0)))
+		b.WriteString(c36GapText(is.Nth(1)))
 	}
-	b.WriteString(itemText(in.Nth(3)))
-	if t := in.Nth(4); !t.IsAtom {
-		b.WriteString(c36SepText(t))
-	}
+	b.WriteString(c36ItemText(in.Nth(3)))
+	b.WriteString(c36GapText(in.Nth(4)))
 	return b.String()
 }
 
-func c36Piece(g *core.Gen) core.Sexp {
-	body := core.Pick(g, []string{"x", " x ", " note: keep ", "", " ", " a b c ", " 1 ", " select ", "*", " x * y ", " -- z ", " # ", " it's ", " (1 ", " ) ", " \"q ", " in ", " a/b ", "/", " http://x/y ", "**", " !x"})
-	switch g.Intn(8) {
+var c36CommentBodies = []string{"x", " x ", " note: keep ", "", " ", " a b c ", " 1 ", " select ", "*", " x * y ", " -- z ", " # ", " it's ", " (1 ", " ) ", " \"q ", " in ", " a/b ", "/", " http://x/y ", "**", " !x", " 'a' ) ("}
+
+var c36WsChars = []string{" ", " ", " ", "\t", "\n", "\r", "\v", "\f"}
+
+func c36Piece(g *core.Gen, comment bool) core.Sexp {
+	if !comment {
+		return core.L(core.A("ws"), core.Text(core.Pick(g, c36WsChars)))
+	}
+	body := core.Pick(g, c36CommentBodies)
+	switch g.Intn(4) {
 	case 0, 1:
 		return core.L(core.A("mlc"), core.Text(body+"*/"))
 	case 2:
-		return core.L(core.A("dash"), core.Text(core.Pick(g, []string{" ", "\t", "\r"})), core.Text(strings.ReplaceAll(body, "\n", " ")+"\n"))
-	case 3:
-		return core.L(core.A("hash"), core.Text(body+"\n"))
+		return core.L(core.A("dash"), core.Text(core.Pick(g, []string{" ", "\t", "\r", "\v"})), core.Text(strings.ReplaceAll(body, "\n", " ")+"\n"))
 	default:
-		return core.L(core.A("ws"), core.Text(core.Pick(g, []string{" ", " ", "\t", "\n", "\r"})))
+		return core.L(core.A("hash"), core.Text(body+"\n"))
 	}
 }
 
-func c36Sep(g *core.Gen, busy bool) core.Sexp {
-	xs := []core.Sexp{core.Text(core.Pick(g, []string{" ", " ", " ", "\t", "\n", "\r"}))}
-	if busy {
-		n := g.Intn(4)
-		for i := 0; i < n; i++ {
-			xs = append(xs, c36Piece(g))
-		}
+// c36Gap: a gap of white space and (if busy) comments in any order; empty only if mayBeEmpty.
+func c36Gap(g *core.Gen, busy, mayBeEmpty bool) core.Sexp {
+	var xs []core.Sexp
+	n := 1 + g.Intn(3)
+	if mayBeEmpty {
+		n = g.Intn(3)
+	}
+	if !busy && n > 1 && g.Intn(2) == 0 {
+		n = 1
+	}
+	for i := 0; i < n; i++ {
+		xs = append(xs, c36Piece(g, busy && g.Intn(3) == 0))
 	}
 	return core.L(xs...)
 }
 
-// c36EmitGrammar emits a statement whose tokens are all separated by white
-// space (punctuation that the canonical rendering glues to a word stays
-// glued: `a,`, `t.id`, `count(*)`, `(c`), i.e. a statement of the grammar
-// the theorems of Props/C36.lean quantify over, with random letter case,
-// literals and separators (white space and comments of all three kinds).
+// c36ListContent renders the elements of one parenthesised row: the literals
+// separated by commas, with blanks and (if busy) comments anywhere between them.
+func c36ListContent(g *core.Gen, elems []string, busy bool) string {
+	var b strings.Builder
+	filler := func() {
+		b.WriteString(core.Pick(g, []string{"", "", " ", "\n", "  "}))
+		if busy && g.Intn(4) == 0 {
+			b.WriteString(c36PieceText(c36Piece(g, true)))
+		}
+	}
+	for i, e := range elems {
+		if i > 0 {
+			filler()
+			b.WriteString(",")
+		}
+		filler()
+		b.WriteString(e)
+	}
+	filler()
+	return b.String()
+}
+
+// c36ThLiteral: literal spellings of the theorem grammar, the repaired ones included.
+func c36ThLiteral(g *core.Gen, numeric bool) string {
+	if numeric || g.Intn(2) == 0 {
+		if g.Intn(4) == 0 {
+			return core.Pick(g, []string{"1e+5", "2E+10", "1.5e+3", ".5", ".25", "-5", "+7", "-0.5", "-1.5e-3", "+0.5e1"})
+		}
+		return c36Number(g)
+	}
+	if g.Intn(8) == 0 {
+		return core.Pick(g, []string{"x'0F'", "b'0101'", "x''", "x\"0f\""})
+	}
+	if g.Intn(5) == 0 {
+		return core.Pick(g, []string{"'it''s'", "\"say \"\"hi\"\"\"", "''''", "'''a'", "'a'''", "''", "\"\"", "'\\''", "'a\\\\'"})
+	}
+	return c36String(g)
+}
+
+func c36Numberish(c byte) bool {
+	return (c >= '0' && c <= '9') || (c >= 'a' && c <= 'z') || (c >= 'A' && c <= 'Z') || c == '.' || c == '-' || c == '_'
+}
+
+// c36EmitGrammar emits a statement of the token grammar the theorems of
+// Props/C36.lean quantify over: chunks (word text and literals glued as the
+// layout says: `id=1`, `f(1,2)`, `5,10`, `(a`), value lists with several rows,
+// separators of white space and comments in any order, comments inside lists.
 func c36EmitGrammar(g *core.Gen) {
 	if g.Intn(25) == 0 {
 		// fingerprints longer than the text: chains of one-element lists written without blanks
-		sp := core.L(core.Text(" "))
-		wd := func(s string) core.Sexp { return core.L(core.L(core.A("w"), core.Text(s)), sp) }
+		sp := core.L(core.L(core.A("ws"), core.Text(" ")))
+		wd := func(s string) core.Sexp { return core.L(core.L(core.A("c"), core.L(core.A("w"), core.Text(s))), sp) }
 		init := []core.Sexp{wd("select"), wd(core.Pick(g, []string{"a", "*", "c"})), wd("from"), wd("t"), wd("where")}
 		n := 2 + g.Intn(5)
 		for i := 0; i < n; i++ {
 			init = append(init, wd(core.Pick(g, c36Columns)))
-			vl := core.L(core.A("vl"), core.Text(core.Pick(g, []string{"in", "IN"})), core.Text(""), core.Text(core.Pick(g, []string{"1", "7", "a", "?"})))
+			vl := core.L(core.A("vl"), core.Text(core.Pick(g, []string{"in", "IN"})), core.L(), core.Text(core.Pick(g, []string{"1", "7", "a", "?"})))
 			if i+1 == n {
-				g.Emit(core.L(core.A("th"), core.L(), core.L(init...), vl, core.A("-")), "grammar", "grammar-value-list", "grammar-longer-than-text")
+				g.Emit(core.L(core.A("th"), core.L(), core.L(init...), vl, core.L()), "grammar", "grammar-value-list", "grammar-longer-than-text")
 				return
 			}
 			init = append(init, core.L(vl, sp), wd(core.Pick(g, []string{"or", "and"})))
 		}
 	}
-	var toks []c36Tok
-	var shape string
-	for {
-		toks, shape = c36Statement(g)
-		bad := false
-		for i, t := range toks {
-			// a second row of VALUES (`values (1), (2)`) is outside the grammar
-			if t.kind == "op" && t.text == "," && i > 0 && toks[i-1].text == ")" && i+1 < len(toks) && toks[i+1].text == "(" {
-				bad = true
-			}
+	c36TightOps, c36TightCommas = g.Intn(2) == 0, g.Intn(3) == 0
+	defer func() { c36TightOps, c36TightCommas = false, false }()
+	toks, shape := c36Statement(g)
+	toks = c36CloneToks(toks)
+	if shape == "insert" && toks[len(toks)-1].text == ")" && g.Intn(2) == 0 {
+		// more rows: repeat the last one
+		k := len(toks) - 1
+		for toks[k].text != "(" || toks[k].kind != "op" {
+			k--
 		}
-		if !bad {
-			break
+		row := c36CloneToks(toks[k:])
+		for n := 1 + g.Intn(2); n > 0; n-- {
+			toks = append(toks, c36op(","))
+			toks = append(toks, row...)
 		}
 	}
-	toks = c36Relit(g, toks)
-	busy := g.Intn(3) > 0
-	// group tokens into items
-	type item struct{ kind, text, lit, extra string }
-	var items []item
-	tight := g.Intn(2) == 0 // comparisons written `id=1` (items cn / cs)
-	pendingCmp := false
-	skipTo := -1       // tokens consumed by a value list
-	afterList := false // the previous item is a value list: white space only, then a plain word
+	if shape == "insert" && g.Intn(3) > 0 {
+		// something after the (last) row: INSERT … VALUES (…), (…) AS nw [ON DUPLICATE KEY UPDATE a=values(a), b = 1]
+		toks = append(toks, c36kw("as"), c36id("nw"))
+		shape += "-as"
+		if g.Intn(2) == 0 {
+			toks = append(toks, c36kw("on"), c36kw("duplicate"), c36kw("key"), c36kw("update"),
+				c36id("a=values(a),"), c36id("b"), c36op("="), c36lit("1"))
+			shape += "-on-dup"
+		}
+	}
 	for i, t := range toks {
-		if i <= skipTo {
-			continue
+		if t.kind == "lit" {
+			numeric := i > 0 && (toks[i-1].text == "limit" || toks[i-1].text == "offset" || (toks[i-1].text == "," && i > 2 && toks[i-3].text == "limit"))
+			toks[i].text = c36ThLiteral(g, numeric)
 		}
+	}
+	busy := g.Intn(3) > 0
+
+	type itemSep struct{ item, sep core.Sexp }
+	var out []itemSep
+	var segs []core.Sexp // segments of the chunk being built
+	lastKind := ""       // kind of the last segment: w n s
+	lastText := ""
+	flush := func(sep core.Sexp) {
+		if len(segs) > 0 {
+			out = append(out, itemSep{core.L(append([]core.Sexp{core.A("c")}, segs...)...), sep})
+			segs, lastKind, lastText = nil, "", ""
+		}
+	}
+	addSeg := func(kind, text string) {
+		if kind == "p" {
+			segs = append(segs, core.L(core.A("p"), core.Text(text[:1]), core.Text(text[1:])))
+			lastKind, lastText = "s", text
+			return
+		}
+		if kind == "w" && lastKind == "w" {
+			lastText += text
+			segs[len(segs)-1] = core.L(core.A("w"), core.Text(lastText))
+			return
+		}
+		segs = append(segs, core.L(core.A(kind), core.Text(text)))
+		lastKind, lastText = kind, text
+	}
+	tags := map[string]bool{}
+	for i := 0; i < len(toks); i++ {
+		t := toks[i]
 		if c36IsListKw(t) && i+1 < len(toks) && toks[i+1].text == "(" {
-			// `in ( … )`, `values( … )`: one item (vl KW GAP CONTENT)
-			depth, j := 0, i+1
-			var content strings.Builder
-			for ; j < len(toks); j++ {
-				tt := toks[j]
-				if tt.kind == "op" && tt.text == "(" {
-					depth++
-					if depth == 1 {
-						continue
+			flush(c36Gap(g, busy, false))
+			// rows: ( lit, … ) [ , ( … ) ]*
+			var rows [][]string
+			j := i + 1
+			for {
+				var elems []string
+				j++ // past "("
+				for ; toks[j].text != ")" || toks[j].kind != "op"; j++ {
+					if toks[j].kind == "lit" {
+						elems = append(elems, toks[j].text)
 					}
 				}
-				if tt.kind == "op" && tt.text == ")" {
-					depth--
-					if depth == 0 {
-						break
-					}
+				rows = append(rows, elems)
+				if j+2 < len(toks) && toks[j+1].kind == "op" && toks[j+1].text == "," && toks[j+2].kind == "op" && toks[j+2].text == "(" {
+					j += 2
+					continue
 				}
-				content.WriteString(core.Pick(g, []string{"", "", " ", "\n", "  "}))
-				content.WriteString(tt.text)
+				break
 			}
-			content.WriteString(core.Pick(g, []string{"", "", " "}))
+			content := c36ListContent(g, rows[0], busy)
 			if g.Intn(12) == 0 {
-				content.Reset() // an empty list: `()`
+				content = "" // `()`
+				if busy {
+					content = core.Pick(g, []string{"", " ", "/* none */"})
+				}
 			}
-			items = append(items, item{"vl", c36Recase(g, t.text), core.Pick(g, []string{"", "", " ", "\n", " \t"}), content.String()})
-			skipTo = j
-			afterList = true
-			continue
-		}
-		if pendingCmp {
-			// the literal of an unspaced comparison
-			pendingCmp = false
-			last := &items[len(items)-1]
-			last.lit = t.text
-			if t.text[0] == '\'' || t.text[0] == '"' {
-				last.kind = "cs"
-			} else {
-				last.kind = "cn"
+			vl := []core.Sexp{core.A("vl"), core.Text(c36Recase(g, t.text)), c36Gap(g, busy, true), core.Text(content)}
+			for _, r := range rows[1:] {
+				vl = append(vl, core.L(c36Gap(g, busy, true), c36Gap(g, busy, true), core.Text(c36ListContent(g, r, busy))))
+				tags["grammar-several-rows"] = true
 			}
-			continue
-		}
-		if tight && c36IsCmpOp(t) && i > 0 && toks[i-1].kind != "lit" && i+1 < len(toks) && toks[i+1].kind == "lit" && g.Intn(4) > 0 {
-			items[len(items)-1].text += t.text
-			pendingCmp = true
+			tags["grammar-value-list"] = true
+			i = j
+			sep := c36Gap(g, busy, false)
+			if len(rows) == 1 && i+1 < len(toks) && toks[i+1].text == ")" && g.Intn(3) > 0 {
+				sep = core.L() // glued: `(a in (1))`
+				tags["grammar-list-glued"] = true
+			}
+			out = append(out, itemSep{core.L(vl...), sep})
 			continue
 		}
 		text := t.text
 		if t.kind == "kw" || (t.kind == "id" && g.Intn(4) == 0 && !strings.HasPrefix(text, "`")) {
 			text = c36Recase(g, text)
 		}
-		glue := false
-		if i > 0 && t.kind != "lit" && toks[i-1].kind != "lit" && c36GapLevel(toks[i-1], t) == 0 {
-			glue = true
-		}
-		if afterList {
-			glue = false // after a value list a separator is required
-		}
-		afterList = false
-		if glue {
-			items[len(items)-1].text += text
-			continue
-		}
 		kind := "w"
 		if t.kind == "lit" {
-			if text[0] == '\'' || text[0] == '"' {
+			kind = "n"
+			if strings.ContainsAny(text[:1], "'\"") {
 				kind = "s"
-			} else {
-				kind = "n"
+			} else if len(text) > 1 && strings.ContainsAny(text[:1], "xb") && strings.ContainsAny(text[1:2], "'\"") {
+				kind = "p"
 			}
 		}
-		items = append(items, item{kind, text, "", ""})
-	}
-	itemSexp := func(it item) core.Sexp {
-		if it.kind == "vl" {
-			return core.L(core.A("vl"), core.Text(it.text), core.Text(it.lit), core.Text(it.extra))
+		glue := false
+		if len(segs) > 0 && i > 0 && c36GapLevel(toks[i-1], t) == 0 {
+			last := lastText[len(lastText)-1]
+			switch {
+			case kind == "n" || kind == "p":
+				glue = lastKind == "w" && strings.ContainsRune("=<>!(,", rune(last))
+			case kind == "s":
+				glue = lastKind == "w" && !strings.ContainsRune("\\xb", rune(last))
+			case lastKind == "n" || lastKind == "s":
+				glue = !c36Numberish(text[0])
+			default:
+				glue = true
+			}
+			if glue && g.Intn(6) == 0 && t.text != "." {
+				glue = false // optional blanks are kept sometimes (a chunk cannot begin with a dot)
+			}
 		}
-		if it.kind == "cn" || it.kind == "cs" {
-			return core.L(core.A(it.kind), core.Text(it.text), core.Text(it.lit))
+		if !glue {
+			flush(c36Gap(g, busy, false))
+		} else if kind != "w" || lastKind != "w" {
+			tags["grammar-glued-literal"] = true
 		}
-		return core.L(core.A(it.kind), core.Text(it.text))
+		addSeg(kind, text)
 	}
-	var lead []core.Sexp
-	if busy && g.Intn(3) == 0 {
-		n := 1 + g.Intn(3)
-		for i := 0; i < n; i++ {
-			lead = append(lead, c36Piece(g))
-		}
-	}
-	var init []core.Sexp
-	wsSep := func() core.Sexp {
-		xs := []core.Sexp{core.Text(core.Pick(g, []string{" ", " ", "\t", "\n", "\r"}))}
-		for k := g.Intn(3); k > 0; k-- {
-			xs = append(xs, core.L(core.A("ws"), core.Text(core.Pick(g, []string{" ", "\t", "\n", "\r"}))))
-		}
-		return core.L(xs...)
-	}
-	for _, it := range items[:len(items)-1] {
-		if it.kind == "vl" {
-			init = append(init, core.L(itemSexp(it), wsSep()))
-		} else {
-			init = append(init, core.L(itemSexp(it), c36Sep(g, busy)))
-		}
-	}
-	last := items[len(items)-1]
-	tail := core.A("-")
+	tail := core.L()
 	if g.Intn(3) == 0 {
-		if last.kind == "vl" {
-			tail = wsSep()
-		} else {
-			tail = c36Sep(g, busy)
+		tail = c36Gap(g, busy, false)
+	}
+	if len(segs) > 0 {
+		flush(tail)
+	} else {
+		// the statement ends with a value list: what follows it is the tail
+		tail = out[len(out)-1].sep
+		if g.Intn(2) == 0 {
+			tail = core.L()
 		}
+	}
+	lastItem := out[len(out)-1].item
+	var init []core.Sexp
+	for _, is := range out[:len(out)-1] {
+		init = append(init, core.L(is.item, is.sep))
+	}
+	var lead core.Sexp = core.L()
+	if g.Intn(3) == 0 {
+		lead = c36Gap(g, busy, false)
 	}
 	tag := "grammar-plain"
 	if busy {
 		tag = "grammar-comments"
 	}
-	tag2, tag3 := "", ""
-	for _, it := range items {
-		if it.kind == "cn" || it.kind == "cs" {
-			tag2 = "grammar-unspaced-comparison"
-		}
-		if it.kind == "vl" {
-			tag3 = "grammar-value-list"
+	all := []string{"grammar", tag, "shape-" + shape}
+	for _, k := range []string{"grammar-value-list", "grammar-several-rows", "grammar-list-glued", "grammar-glued-literal"} {
+		if tags[k] {
+			all = append(all, k)
 		}
 	}
-	g.Emit(core.L(core.A("th"), core.L(lead...), core.L(init...), itemSexp(last), tail),
-		"grammar", tag, tag2, tag3, "shape-"+shape)
+	g.Emit(core.L(core.A("th"), lead, core.L(init...), lastItem, tail), all...)
 }
